@@ -9,6 +9,7 @@ import (
 	"regexp"
 	"strings"
 	"testing"
+	"unicode/utf8"
 
 	"github.com/btcsuite/btcutil/base58"
 	"github.com/cosmos/cosmos-sdk/client"
@@ -136,10 +137,45 @@ func knownCollision(mode string, a, b sdk.Msg) string {
 	if open["C14-amino-did-create-update"] && pair("/panacea.did.v2.MsgCreateDIDRequest", "/panacea.did.v2.MsgUpdateDIDRequest") {
 		return "C14-amino-did-create-update"
 	}
+	if open["C14-amino-invalid-utf8"] && (hasInvalidUTF8(a) || hasInvalidUTF8(b)) {
+		return "C14-amino-invalid-utf8"
+	}
 	if open["C14-amino-aol-unwrapped"] && strings.HasPrefix(ua, "/panacea.aol.") && strings.HasPrefix(ub, "/panacea.aol.") && ua != ub {
 		return "C14-amino-aol-unwrapped"
 	}
 	return ""
+}
+
+// hasInvalidUTF8 reports whether a string field anywhere in the message is not valid UTF-8.
+func hasInvalidUTF8(m sdk.Msg) bool {
+	bad := false
+	var walk func(v reflect.Value)
+	walk = func(v reflect.Value) {
+		switch v.Kind() {
+		case reflect.Ptr, reflect.Interface:
+			if !v.IsNil() {
+				walk(v.Elem())
+			}
+		case reflect.Struct:
+			for i := 0; i < v.NumField(); i++ {
+				if v.Type().Field(i).PkgPath == "" {
+					walk(v.Field(i))
+				}
+			}
+		case reflect.Slice:
+			if v.Type().Elem().Kind() != reflect.Uint8 {
+				for i := 0; i < v.Len(); i++ {
+					walk(v.Index(i))
+				}
+			}
+		case reflect.String:
+			if !utf8.ValidString(v.String()) {
+				bad = true
+			}
+		}
+	}
+	walk(reflect.ValueOf(m))
+	return bad
 }
 
 type c14pair struct {
@@ -240,7 +276,10 @@ func c14Doc(t *rapid.T, did string) *didtypes.DIDDocument {
 func genValidMsg(t *rapid.T, ti int) sdk.Msg {
 	accts := simnet.DefaultAccounts(3)
 	addr := func(l string) string { return accts[rapid.IntRange(0, 2).Draw(t, l)].Bech }
-	str := func(l string) string { return rapid.SampledFrom([]string{"", "", "a", "ab", "b"}).Draw(t, l) }
+	str := func(l string) string {
+		// free-text fields are not checked for UTF-8 by stateless validation
+		return rapid.SampledFrom([]string{"", "", "", "a", "a", "ab", "b", "a\xffb", "a\xfeb"}).Draw(t, l)
+	}
 	req := func(l string) string { return rapid.SampledFrom([]string{"a", "ab", "b", "ba"}).Draw(t, l) }
 	byt := func(l string) []byte {
 		return rapid.SampledFrom([][]byte{nil, nil, []byte("a"), []byte("ab")}).Draw(t, l)
